@@ -37,6 +37,11 @@ pub struct Program {
     /// listener callbacks happen inside the race)
     #[serde(default)]
     pub trip: bool,
+    /// after the prelude a flow rule with threshold 0 is loaded on both resources: a probe admitted by a
+    /// breaker is rejected elsewhere, so its exit hook rolls the breaker back (state lock, then listeners lock)
+    /// while other threads replace or clear the breakers (breaker drop: listeners lock, then state lock)
+    #[serde(default)]
+    pub block_probe: bool,
     /// a StateChangeListener whose callbacks call read-only circuit-breaker manager functions
     pub listener: bool,
     /// custom generators (flow / hotspot / breaker) whose callbacks call read-only manager functions
@@ -160,7 +165,7 @@ impl Prop for C15 {
     }
 
     fn generate(&self, rng: &mut Rng, slot_ns: u64, avoid: bool) -> Value {
-        let listener = !avoid && rng.chance(1, 4);
+        let mut listener = !avoid && rng.chance(1, 4);
         let custom_generators = !avoid && rng.chance(1, 5);
         let f1 = if listener { 1 } else { rng.below(5) as usize };
         let f2 = if rng.chance(7, 10) { f1 } else { rng.below(5) as usize };
@@ -184,7 +189,27 @@ impl Prop for C15 {
         }
         let epoch_ns = slot_ns - slot_ns % (10 * SEC) + rng.range(100, 300) * MS;
         let trip = (f1 == 1 || f2 == 1) && rng.chance(2, 3);
-        json!({"epoch_ns": epoch_ns, "schedule": gen_schedule(rng, 250), "program": Program { preload, tasks, trip, listener, custom_generators }})
+        let block_probe = trip && rng.chance(1, 3);
+        if block_probe {
+            // the breaker's drop announcement reads the state only if a listener is registered
+            listener = true;
+            // make sure the race has a probing entry and an operation that drops breakers
+            let r = res_name(rng.below(2));
+            tasks[0] = vec![MOp::Entry { res: r.clone(), err: false, ms: 0 }];
+            let drop_op = match rng.below(4) {
+                0 => MOp::Clear { fam: 1 },
+                1 => MOp::ClearRes { fam: 1, res: r },
+                2 => MOp::LoadAll { fam: 1, rules: vec![] },
+                _ => MOp::LoadAll { fam: 1, rules: (0..rng.range(1, 2)).map(|_| gen_rule(rng, 1, false, &mut n)).collect() },
+            };
+            let last = tasks.len() - 1;
+            tasks[last] = vec![drop_op];
+            if !preload.iter().any(|x| x.fam() == 1) {
+                preload.push(gen_rule(rng, 1, false, &mut n));
+                preload.push(gen_rule(rng, 1, false, &mut n));
+            }
+        }
+        json!({"epoch_ns": epoch_ns, "schedule": gen_schedule(rng, 250), "program": Program { preload, tasks, trip, block_probe, listener, custom_generators }})
     }
 
     fn execute(&self, scenario: &Value, cov: &mut Cov) -> RunResult {
@@ -195,6 +220,9 @@ impl Prop for C15 {
         }
         if prog.trip {
             cov.hit("with_tripped_breakers_ready_to_probe");
+        }
+        if prog.block_probe {
+            cov.hit("probe_rejected_elsewhere_while_breakers_are_replaced");
         }
         if prog.custom_generators {
             cov.hit("with_callback_generators");
@@ -251,7 +279,7 @@ impl Prop for C15 {
             p.listener = false;
             push(p);
         }
-        if prog.trip {
+        if prog.trip && !prog.block_probe {
             let mut p = prog.clone();
             p.trip = false;
             push(p);
@@ -389,6 +417,9 @@ fn body(epoch_ns: u64, prog: &Program, obs: Obs) {
             }
         }
         vc::advance(1_500 * MS);
+        if prog.block_probe {
+            fam::load_all(0, &[AnySpec::Flow(FlowSpec::reject("deny0", &res_name(0), 0.0, 0)), AnySpec::Flow(FlowSpec::reject("deny1", &res_name(1), 0.0, 0))]);
+        }
     }
     let mut handles = vec![];
     for ops in prog.tasks.iter() {
